@@ -59,7 +59,8 @@ mod verif_kani_c18_blob {
             let mut pager = crate::pager::verif_kani_pager::dummy();
             let r = BlobStore::write_direct(&mut pager, &data);
             core::mem::forget(pager);
-            let head = match r { Ok(h) => h, Err(e) => { core::mem::forget(e); assert!(false, "C18.blob.write_direct.ok_with_working_allocator"); 0 } };
+            assert!(r.is_ok(), "C18.blob.write_direct.ok_with_working_allocator");
+            let head = match r { Ok(h) => h, Err(e) => { core::mem::forget(e); 0 } };
             let want = if chunks == 0 { 1 } else { chunks };
             assert!(!BAD_WRITE, "C18.blob.write_direct.writes_only_pages_it_was_handed");
             assert!(N_ALLOC == want && N_WRITE == want, "C18.blob.write_direct.one_write_per_allocated_page");
